@@ -1,50 +1,107 @@
 (* C29 — Roller prefers the last working fingerprint and tries each at most once.
    For every configured id list without duplicates, every outcome of the shuffle
-   (any permutation), every remembered working id, every TCP behaviour and every
-   set of fingerprints the server accepts. *)
+   (any permutation), every remembered working id, every TCP behaviour, every
+   sequence of generated seeds, every handshake timeout, every starting time and
+   every way the peer treats the fingerprints it sees (serve / refuse after any
+   delay, or stay silent until the timeout). *)
 From UV Require Import Base.Common Model.Roller Proofs.RollerP.
-From Coq Require Import Permutation.
+From Coq Require Import Permutation ZifyBool ZifyNat ZifyN.
 
 Section C29.
-  Variables (ids sh : list id) (working : option id) (tcp : nat -> bool) (acc : id -> bool).
+  Variables (ids sh : list hid) (working : option hid) (tcp : nat -> bool) (gen : nat -> N)
+            (T : N) (peer : hid -> peer_beh) (now : N).
   Hypothesis ids_nodup : NoDup ids.
   Hypothesis sh_perm : Permutation ids sh.
-  Notation r := (dial sh working tcp acc).
+  Notation r := (dial sh working tcp gen T peer now).
 
-  Theorem C29_first : forall w, working = Some w -> attempts r = [] \/ hd_error (attempts r) = Some w.
-  Proof. exact (dial_first sh working tcp acc). Qed.
+  (* starts with the remembered id; the fingerprint sent first is the one that id denotes *)
+  Theorem C29_first : forall w, working = Some w ->
+    tried r = [] \/ (hd_error (tried r) = Some w /\ hd_error (map fst (wire r)) = Some (conn_id gen 0 w)).
+  Proof. exact (dial_first sh working tcp gen T peer now). Qed.
 
-  Theorem C29_once : NoDup (attempts r) /\ incl (attempts r) (pool ids working).
-  Proof. exact (dial_once ids sh working tcp acc ids_nodup sh_perm). Qed.
+  (* each configured id (or the remembered one) at most once; one ClientHello per id tried *)
+  Theorem C29_once : NoDup (tried r) /\ incl (tried r) (pool ids working) /\
+                     map fst (wire r) = fps gen 0 (tried r).
+  Proof. exact (dial_once ids sh working tcp gen T peer now ids_nodup sh_perm). Qed.
 
-  Theorem C29_result : forall i, result r = Connected i ->
-    exists before, attempts r = before ++ [i] /\ acc i = true /\ Forall (fun x => acc x = false) before /\
-                   working' r = Some i.
-  Proof. exact (dial_connected sh working tcp acc). Qed.
+  (* every attempt gets the full timeout: how it ends depends only on what the peer does with
+     that fingerprint, not on the time earlier attempts took *)
+  Theorem C29_own_deadline : Forall (fun a => snd a = hs_outcome T (peer (fst a))) (wire r).
+  Proof. exact (dial_outcomes sh working tcp gen T peer now). Qed.
+
+  (* returns the first connection whose handshake succeeds and records that connection's id
+     (with the seed that defines its fingerprint) as working *)
+  Theorem C29_result : forall f, result r = Connected f ->
+    exists before, wire r = before ++ [(f, HsOk)] /\ would_succeed T (peer f) = true /\
+                   Forall (fun a => would_succeed T (peer (fst a)) = false) before /\
+                   working' r = Some f /\ unseeded f = false.
+  Proof. exact (dial_connected sh working tcp gen T peer now). Qed.
+
+  (* ... so that the next Dial, whatever its shuffle, seeds, peer and timeout, starts with the
+     very fingerprint that worked *)
+  Theorem C29_next_starts_with_working : forall f sh2 tcp2 gen2 T2 peer2 now2, result r = Connected f ->
+    let r2 := dial sh2 (working' r) tcp2 gen2 T2 peer2 now2 in
+    tried r2 = [] \/ hd_error (map fst (wire r2)) = Some f.
+  Proof. intros f sh2 tcp2 gen2 T2 peer2 now2. exact (dial_next_first sh working tcp gen T peer now f sh2 tcp2 gen2 T2 peer2 now2). Qed.
 
   Theorem C29_tcp_error : forall j, result r = TcpError j ->
-    tcp j = false /\ length (attempts r) = j /\ Forall (fun x => acc x = false) (attempts r) /\ working' r = working.
-  Proof. exact (dial_tcp_error sh working tcp acc). Qed.
+    tcp j = false /\ length (tried r) = j /\
+    Forall (fun a => would_succeed T (peer (fst a)) = false) (wire r) /\ working' r = working.
+  Proof. exact (dial_tcp_error sh working tcp gen T peer now). Qed.
 
   Theorem C29_exhausted : result r = AllFailed \/ result r = NoIds ->
-    Permutation (attempts r) (pool ids working) /\ Forall (fun x => acc x = false) (attempts r) /\ working' r = working.
-  Proof. exact (dial_exhausted ids sh working tcp acc sh_perm). Qed.
+    Permutation (tried r) (pool ids working) /\
+    Forall (fun a => would_succeed T (peer (fst a)) = false) (wire r) /\ working' r = working.
+  Proof. exact (dial_exhausted ids sh working tcp gen T peer now sh_perm). Qed.
 
-  (* the decidable observer check used against the implementation is sound for the model *)
+  (* the decidable observer check used against the implementation is sound for the model,
+     provided generated seeds do not collide with configured ones *)
+  Hypothesis gen_fresh : forall k y, In y (pool ids working) -> seed y <> Some (gen k).
   Theorem C29_trace_ok :
-    trace_ok ids working acc (attempts r) (conn_of (result r)) (is_tcp_err (result r)) = true.
-  Proof. exact (dial_trace_ok ids sh working tcp acc ids_nodup sh_perm). Qed.
+    trace_ok ids working T (map (fun a => (fst a, peer (fst a))) (wire r))
+             (conn_of (result r)) (is_tcp_err (result r)) = true.
+  Proof. exact (dial_trace_ok ids sh working tcp gen T peer now ids_nodup sh_perm gen_fresh). Qed.
 End C29.
 Print Assumptions C29_first.
 Print Assumptions C29_once.
+Print Assumptions C29_own_deadline.
 Print Assumptions C29_result.
+Print Assumptions C29_next_starts_with_working.
 Print Assumptions C29_tcp_error.
 Print Assumptions C29_exhausted.
 Print Assumptions C29_trace_ok.
 
-Example C29_ex : let r := dial [3;1;2] (Some 2) (fun _ => true) (fun x => x =? 1) in
-  attempts r = [2;1] /\ result r = Connected 1 /\ working' r = Some 1.
+(* ids 1 = a fixed parrot, 2 = an unseeded randomized id, 3 = a fixed parrot; the remembered id is
+   the randomized one with seed 7.  The peer is silent towards that fingerprint, refuses parrot 3,
+   serves everything else after 5 time units; timeout 300. *)
+Definition ex_peer (f : hid) : peer_beh :=
+  if hid_eqb f (mkHid true 2 (Some 7)) then Silent else if base f =? 3 then Refuse 1 else Serve 5.
+Example C29_ex :
+  let r := dial [mkHid false 3 None; mkHid false 1 None; mkHid true 2 None] (Some (mkHid true 2 (Some 7)))
+                (fun _ => true) (fun k => 100 + N.of_nat k) 300 ex_peer 0 in
+  tried r = [mkHid true 2 (Some 7); mkHid false 3 None; mkHid false 1 None] /\
+  wire r = [(mkHid true 2 (Some 7), HsTimeout); (mkHid false 3 None, HsRejected); (mkHid false 1 None, HsOk)] /\
+  result r = Connected (mkHid false 1 None) /\ working' r = Some (mkHid false 1 None).
 Proof. vm_compute. auto. Qed.
-Example C29_ex_hyp : NoDup [1;2;3] /\ Permutation [1;2;3] [3;1;2].
-Proof. split; [repeat constructor; cbn; intuition discriminate|].
-  apply Permutation_sym. change [3;1;2] with ([3] ++ [1;2]). change [1;2;3] with ([1;2] ++ [3]). apply Permutation_app_comm. Qed.
+(* an unseeded randomized id is served: the recorded id carries the generated seed, and the next
+   Dial (new seeds 200, 201, ...) sends that same fingerprint first *)
+Example C29_ex_seed :
+  let r := dial [mkHid true 2 None; mkHid false 3 None] None (fun _ => true) (fun k => 100 + N.of_nat k) 300 ex_peer 0 in
+  let r2 := dial [mkHid false 3 None; mkHid true 2 None] (working' r) (fun _ => true) (fun k => 200 + N.of_nat k) 300 ex_peer 0 in
+  working' r = Some (mkHid true 2 (Some 100)) /\ map fst (wire r2) = [mkHid true 2 (Some 100)].
+Proof. vm_compute. auto. Qed.
+Example C29_ex_hyp :
+  let ids := [mkHid false 1 None; mkHid true 2 None; mkHid false 3 None] in
+  let sh := [mkHid false 3 None; mkHid false 1 None; mkHid true 2 None] in
+  NoDup ids /\ Permutation ids sh /\
+  (forall k y, In y (pool ids (Some (mkHid true 2 (Some 7)))) -> seed y <> Some (100 + N.of_nat k)).
+Proof.
+  cbn zeta. split; [|split].
+  - repeat constructor; cbn; intuition discriminate.
+  - apply Permutation_sym.
+    change [mkHid false 3 None; mkHid false 1 None; mkHid true 2 None] with ([mkHid false 3 None] ++ [mkHid false 1 None; mkHid true 2 None]).
+    apply Permutation_app_comm.
+  - intros k y Hy. vm_compute in Hy. destruct Hy as [<-|[<-|[<-|[<-|[]]]]]; cbn [seed]; try discriminate.
+    intros H. assert (E : forall a b : N, Some a = Some b -> a = b) by (intros a b [= ->]; reflexivity).
+    apply E in H. lia.
+Qed.
